@@ -20,6 +20,9 @@ PureHist(id) == id = 0 \/ (LET f == Trace[id] IN f.op = "add" /\ f.res.ok /\ f.f
 \* pat: which insertion-order position each schema-ordered child has (0 = not among the children any more): twin
 \* histories number their children differently, the pattern is what must agree
 Pattern(s) == [j \in DOMAIN s.ord |-> IF s.ord[j] \in Range(s.ins) THEN IndexOf(s.ins, s.ord[j]) ELSE 0]
+RECURSIVE NoFwdHist(_)
+NoFwdHist(id) == id = 0 \/ (LET f == Trace[id] IN f.fwd = NoFwd /\ NoFwdHist(f.parent))
+
 Obs(e) == [ok |-> e.res.ok, exc |-> e.res.exc, insw |-> e.post.insw, ordw |-> e.post.ordw, text |-> e.text, pat |-> Pattern(e.post)]
 
 Sane(s) == IsPerm(s.ord, s.ins)
@@ -32,7 +35,7 @@ Has(w, a) == \E j \in DOMAIN w : w[j] = a
 \* ---- clauses of the step itself ---------------------------------------------
 StepClauses(e) ==
   LET pure == PureHist(e.parent) IN
-  CASE e.op = "add"      -> AddClauses(A(e), e.pre, e.kid, e.sym, e.fwd, pure, e.res, e.post)
+  CASE e.op = "add"      -> AddClauses(A(e), e.pre, e.kid, e.sym, e.fwd, pure, NoFwdHist(e.parent), e.res, e.post)
     [] e.op = "remove"   -> RemoveClauses(A(e), e.pre, e.idx, e.res, e.post)
     [] e.op \in {"replace", "replacep"} -> ReplaceClauses(A(e), e.pre, e.idx, e.kid, e.sym, e.res, e.post)
     \* an element under test that could only be built without a required (namespaced) attribute must be
@@ -41,13 +44,13 @@ StepClauses(e) ==
     \* C15: a dot assignment of an element is replace_child on the first child of that name, or add_child
     [] e.op = "dotelem"  -> IF Has(e.pre.insw, e.sym)
                             THEN ReplaceClauses(A(e), e.pre, FirstIdx(e.pre.insw, e.sym), e.kid, e.sym, e.res, e.post)
-                            ELSE AddClauses(A(e), e.pre, e.kid, e.sym, NoFwd, FALSE, e.res, e.post)
+                            ELSE AddClauses(A(e), e.pre, e.kid, e.sym, NoFwd, FALSE, NoFwdHist(e.parent), e.res, e.post)
     \* C15: a value shortcut sets the value of the first child of that name, or adds a new child built from the value
     [] e.op = "dotval"   -> IF Has(e.pre.insw, e.sym)
                             THEN [ante |-> [C15_valframe |-> e.res.ok, C19_quiet |-> TRUE],
                                   holds |-> [C15_valframe |-> e.res.ok => (e.post.ins = e.pre.ins /\ e.post.ord = e.pre.ord), C19_quiet |-> Quiet(e.res)]]
                             ELSE IF e.res.ok /\ e.kid = 0 THEN [ante |-> [C15_valframe |-> TRUE], holds |-> [C15_valframe |-> FALSE]]
-                            ELSE AddClauses(A(e), e.pre, e.kid, e.sym, NoFwd, FALSE, e.res, e.post)
+                            ELSE AddClauses(A(e), e.pre, e.kid, e.sym, NoFwd, FALSE, NoFwdHist(e.parent), e.res, e.post)
     \* C15: assigning None removes the first child of that name; with none present it is a no-op
     [] e.op = "dotnone"  -> IF Has(e.pre.insw, e.sym)
                             THEN RemoveClauses(A(e), e.pre, FirstIdx(e.pre.insw, e.sym), e.res, e.post)
